@@ -22,6 +22,13 @@ fn contents(rng: &mut Rng, len: usize) -> Vec<Vec<u8>> {
 
 fn reprs(rng: &mut Rng, b: &[u8]) -> Vec<(HexSpec, &'static str)> {
     let mut out = vec![(HexSpec::Canon(b.to_vec()), "from_vec"), (HexSpec::Vector(b.to_vec()), "Vector")];
+    // values that come out of other API calls (the representation is whatever those calls leave behind)
+    out.push((HexSpec::Tail(1, b.to_vec()), "tail(1)-of-longer"));
+    out.push((HexSpec::Tail(9, b.to_vec()), "tail(9)-of-longer"));
+    out.push((HexSpec::Parsed(b.to_vec()), "from_str(print)"));
+    if !b.is_empty() {
+        out.push((HexSpec::Cat(b.len() / 2, b.to_vec()), "Vector.concat(inline)"));
+    }
     if b.len() <= 8 {
         for (pad, name) in [(0x00u8, "Bytes/pad00"), (0xFF, "Bytes/padFF")] {
             let mut a = [pad; 8];
